@@ -71,7 +71,7 @@ fn sharing(file: &str, limit: usize) -> (usize, usize, usize, f64) {
     let t = trie_of(&ks);
     let trie = trie_nodes(&t);
     let (minimal, _) = minimal_states(&ks);
-    let out = exec_build("extend", "raw_loop", 0, 10_000, 2, &set_ops(&ks));
+    let out = exec_build("extend", "raw_loop", 0, drows(), dcols(), &set_ops(&ks));
     let f = Fst::new(out.bytes.unwrap()).unwrap();
     let emitted = node_info(&f).emitted;
     let frac = (trie as f64 - emitted as f64) / (trie as f64 - minimal as f64);
@@ -85,7 +85,7 @@ impl Prop for P {
         let sets = crate::c02::standard_keysets(tier, rng, stats, nrand);
         for ks in sets {
             // big caches (no eviction expected), the default, and caches that evict all the time
-            let geoms: [(usize, usize); 5] = [(10_000, 2), (4096, 4), (1, 1), (2, 2), (3, 3)];
+            let geoms: [(usize, usize); 5] = [(drows(), dcols()), (4096, 4), (1, 1), (2, 2), (3, 3)];
             let g = if rng.chance(1, 2) { geoms[0] } else { *rng.pick(&geoms) };
             cases.push(build_case("extend", "raw_loop", 0, g.0, g.1, &set_ops(&ks)));
             let p = 1 + rng.below(NPATTERNS as u64 - 1) as usize;
